@@ -164,7 +164,7 @@ func init() {
 			return []string{"range", "between", "until", "template", "groupBy:string", "groupBy:int", "groupBy:struct", "groupBy:pointer", "groupBy:errors", "len"}
 		},
 		Run:  c19Run,
-		Rule: "range(a,b), between(a,b) for all pairs and until(n) for all n over [-8,8] ∪ {MinInt, MinInt+1, MaxInt-1, MaxInt}: drained under a Next() budget (first 24 values of long intervals), exact values, exhaustion is sticky; the same intervals (small ones) through a template for loop with a running count. groupBy in both shipped implementations (helpers/iterators.GroupBy and plush.GroupByHelper) for every length 0..40 x n in -1..12 x element type {string,int,struct,pointer} x {slice, pointer to slice, array, pointer to array}: n<=0 is an error, otherwise <=n non-empty consecutive groups of xs's element type whose concatenation is xs, all but the last of equal size, and both implementations agree group by group; non-sequences are errors. len(x) equals Go's len for string/slice/array/map/pointer to one, directly and through a template. Non-trivial: non-empty sequences.",
+		Rule: "range(a,b), between(a,b) for all pairs and until(n) for all n over [-8,8] ∪ {MinInt, MinInt+1, MaxInt-1, MaxInt}: drained under a Next() budget (first 24 values of long intervals), exact values, exhaustion is sticky; the same intervals (small ones) through a template for loop with a running count. groupBy in both shipped implementations (helpers/iterators.GroupBy and plush.GroupByHelper) for every length 0..40 x n in -1..12 x element type {string,int,struct,pointer} x {slice, pointer to slice, array, pointer to array}: n<=0 is an error, otherwise <=n non-empty consecutive groups of xs's element type whose concatenation is xs, all but the last of equal size, and both implementations agree group by group, also while other groupBy iterators are alive and partly read (and nested in a template); non-sequences are errors. len(x) equals Go's len for string/slice/array/map/pointer to one, directly and through a template. Non-trivial: non-empty sequences.",
 		Bound: func(th bool) string {
 			return "int domain [-8,8] plus 4 extremes (all pairs); lengths 0..40 x n -1..12 x 4 element types x 4 container shapes"
 		},
@@ -278,6 +278,16 @@ func c19Run(t *engine.T, shard string) {
 				return "template-match", nil
 			})
 		}
+		// nested groupBy loops (two iterators alive at once)
+		t.Case("template nested groupBy", true, func() (string, *engine.Fail) {
+			ctx := plush.NewContext()
+			ctx.Set("xs", []string{"1", "2", "3", "4", "5", "6", "7", "8"})
+			out, err := Render(`<%= for (g) in groupBy(2, xs) { %>[<%= for (h) in groupBy(2, g) { %>(<%= h %>)<% } %>]<% } %>`, ctx)
+			if err != nil || out != "[(12)(34)][(56)(78)]" {
+				return "", engine.Failf("groupBy", "nested groupBy: expected %q, got %q / %v", "[(12)(34)][(56)(78)]", out, err)
+			}
+			return "template-match", nil
+		})
 		// groupBy through a template
 		for L := 0; L <= 7; L++ {
 			for n := 1; n <= 8; n++ {
@@ -328,7 +338,17 @@ func c19Run(t *engine.T, shard string) {
 					t.Case(fmt.Sprintf("groupBy(%d, %s of %d %s)", n, shape, L, kind), L > 0 && n > 0, func() (string, *engine.Fail) {
 						xs := mk()
 						it1, err1 := iterators.GroupBy(n, xs)
+						// further iterators created (and partly read) while it1 is still undrained must not disturb it
+						if other, e := iterators.GroupBy(2, c19Slice(kind, L+3)); e == nil {
+							other.Next()
+						}
+						if other, e := iterators.GroupBy(3, c19Slice("int", 7)); e == nil {
+							other.Next()
+						}
 						it2, err2 := plush.GroupByHelper(n, mk())
+						if other, e := plush.GroupByHelper(2, c19Slice(kind, L+3)); e == nil {
+							other.Next()
+						}
 						if n <= 0 {
 							if err1 == nil || err2 == nil {
 								return "", engine.Failf("groupBy", "n=%d must be an error (errors: %v / %v)", n, err1, err2)
